@@ -23,7 +23,7 @@ RULE = (
 RULE += " Beyond the lattice (chosen scenarios, not enumerated): one lookup call with 1100 particles in scrambled order against per-column calls."
 ASSUMPTIONS = ["parameters on the lattice only", "zeta = 0 (ladim ignores the free surface)"]
 
-THS = [0.01, 0.5, 1.0, 3.0, 5.0, 7.0, 10.0]
+THS = [1e-8, 1e-5, 1e-3, 0.01, 0.5, 1.0, 3.0, 5.0, 7.0, 10.0]  # theta_s in (0, 10]: also very weak surface stretching
 THB = {1: [0.0, 0.1, 0.5, 1.0], 2: [0.01, 0.5, 1.0, 2.0, 4.0], 4: [0.01, 0.5, 1.0, 2.0, 4.0]}
 HC = [1.0, 5.0, 20.0, 250.0]
 HS = [1.0, 2.0, 10.0, 50.0, 300.0, 1000.0, 5000.0]
@@ -185,7 +185,7 @@ def run_lattice(case):
             n += check_lookup(z_r, hs, N, tag, case, bad)
             outcomes.add((Vt, N >= 2))
     return util.result(evals=n, nontrivial=nt, viol=viols, outcomes=[list(o) for o in outcomes], states=n, transitions=n,
-                       sample=dict(N=N, Vstretching=Vs, theta_s=THS[2], theta_b=THB[Vs][1], Vtransform=2, hc=HC[1], h=HS[3]))
+                       sample=dict(N=N, Vstretching=Vs, theta_s=THS[5], theta_b=THB[Vs][1], Vtransform=2, hc=HC[1], h=HS[3]))
 
 
 def run_grid(case):
